@@ -84,9 +84,13 @@ Section StitchProg.
                   | (acc', None) => hunks_loop n hs' after' last' acc' merr k_after
                   end
               end
-          | _ => hunks_loop n hs' after last acc merr k_after  (* Err(_) => continue *)
+          | _ => hunks_loop n hs' after last acc (merr + 1) k_after
+              (* Err(err) => { self.errors.push(err); continue }: Stitch reports it to the monitor *)
           end)
     end.
+
+  Fixpoint consecutive (hs : list N) (i : N) : bool :=
+    match hs with [] => true | h :: hs' => N.eqb h i && consecutive hs' (i + 1) end.
 
   (* State::BeforeBand *)
   Definition open_band (n : nat) (last : option str) (acc : list entry) (merr : N)
@@ -100,7 +104,13 @@ Section StitchProg.
             match r2 with
             | RList ds _ =>
                 list_subdirs (N.of_nat n) (subdir_numbers ds) [] (k_after last acc (merr + 1))
-                  (fun hs => hunks_loop n hs last last acc merr k_after)
+                  (fun hs =>
+                     (* check_hunk_numbers: band.get_info() reads the tail *)
+                     Do (OpRead (PTail (N.of_nat n))) (fun r3 =>
+                       let count := match r3 with RData (Good (PlTail c)) => c | _ => None end in
+                       let bad := negb (consecutive hs 0)
+                                  || match count with Some c => negb (N.eqb c (N.of_nat (length hs))) | None => false end in
+                       hunks_loop n hs last last acc (if bad then merr + 1 else merr) k_after))
             | _ => k_after last acc (merr + 1)        (* monitor.error(err); AfterBand *)
             end)
       end).
